@@ -809,6 +809,24 @@ def pair_unop(op, p, kind):
         return (False, nan)
     if op == "isfinite":
         return (False, alg.not_(nan))
+    if op in ("floor", "ceil", "trunc", "rint"):
+        if kind in ("i", "u", "b"):
+            return (nan, v)
+        if kind != "f":
+            raise Unsupported("%s of kind %s" % (op, kind))
+        if op == "floor":
+            r = alg.floor(v)
+        elif op == "ceil":
+            r = alg.neg(alg.floor(alg.neg(v)))
+        elif op == "trunc":
+            r = alg.trunc(v)
+        else:  # round half to even (numpy.round / rint with 0 decimals)
+            fl = alg.floor(v)
+            frac = alg.sub(v, alg.to_real(fl))
+            odd = alg.eq(alg.mod(fl, 2), 1)
+            half = Fraction(1, 2)
+            r = alg.ite(alg.or_(alg.gt(frac, half), alg.and_(alg.eq(frac, half), odd)), alg.add(fl, 1), fl)
+        return (nan, alg.to_real(r))
     raise Unsupported("unop " + op)
 
 
